@@ -427,7 +427,7 @@ int main(int argc, char *argv[])
 	static char line[1 << 20];
 	char dir[4096];
 	/* scratch directory inside the directory of the binary (the check removes that on exit) */
-	snprintf(dir, sizeof(dir), "%%s.d-XXXXXX", argv[0]);
+	snprintf(dir, sizeof(dir), "%s.d-XXXXXX", argv[0]);
 	if (!mkdtemp(dir) || chdir(dir))
 		return 2;
 	dumpf = stdout;
